@@ -156,6 +156,42 @@ def sweep_unit(u) -> Stats:
     return st
 
 
+def child_draws(payload):
+    """Runs in a fresh interpreter (icverif.child): every seeded generator x n x seed, values as hex strings (bit exact)."""
+    out = {}
+    for name in payload["names"]:
+        for n in payload["ns"]:
+            for sd in payload["seeds"]:
+                try:
+                    out[f"{name}/{n}/{sd}"] = [float(x).hex() for x in gens.draw(name, n, sd)]
+                except Exception as e:  # noqa: BLE001
+                    out[f"{name}/{n}/{sd}"] = f"raised {type(e).__name__}: {e}"
+    return out
+
+
+def interpreter_unit(u) -> Stats:
+    """A seeded generator is a function of (n, seed) - not of the interpreter: the same draws in separate interpreter invocations whose string
+    hashing is salted differently (PYTHONHASHSEED 0 / 1 / 4242) must be bit-identical."""
+    from ..child import run_children
+    _, names, ns, seeds = u
+    st = Stats()
+    res = run_children("c10", "child_draws", {"names": names, "ns": ns, "seeds": seeds})
+    ref_hs, ref = sorted(res.items())[0]
+    for hs, r in sorted(res.items())[1:]:
+        for key, vals in r.items():
+            st.states += 1
+            st.transitions += 1
+            st.traces += 1
+            if vals != ref[key]:
+                name, n, sd = key.split("/")
+                st.violation(f"[generator {name} n={n} seed={sd}] identically seeded calls in two interpreter invocations (PYTHONHASHSEED={ref_hs} and "
+                             f"{hs}) returned different games", generator=name, n=int(n), gen_seed=int(sd), interpreters=True, hash_seeds=[ref_hs, hs])
+                if st.nviol >= 3:
+                    return st
+    st.nontrivial += len(ref)
+    return st
+
+
 def cost(u) -> float:
     name, n, seeds = u
     w = 40 if name == "oxs" else 3 if name.startswith(("covg", "xos", "xs")) else 1
@@ -196,17 +232,24 @@ def run(run: Run) -> None:
             for lo in range(base0, base0 + span, 512):
                 sweeps.append((name, n, lo, lo + 512))
     run.add(fanout(sweep_unit, sweeps, chunk=1))
+    seeded = [g for g in gens.names() if not gens.is_unseeded(g)]
+    run.add(fanout(interpreter_unit, [("interpreters", seeded[i::4], [3, 4, 5] if quick else [3, 4, 5, 6], seeds[:2] if quick else seeds[:6]) for i in range(4)], procs=4, chunk=1))
     from ..core import fresh_forks
     hist_ns = [3, 4, 5, 6] if quick else [3, 4, 5, 6, 7]
     hus = [(name, hist_ns if name != "oxs" else hist_ns[:3], seeds[:2]) for name in gens.names() if not gens.is_unseeded(name)]
     run.add(fresh_forks(history_unit, hus, procs=14))
     run.rule += (f"; determinism over a long seed window [{span}*VERIF_SEED, +{span}) for the generators with data-dependent loops (all cheap seeded "
                  "generators in the thorough tier)")
-    run.rule += ("; call histories: for every seeded generator, in a freshly forked process, every ordered pair of player counts and a descending sweep - a "
+    run.rule += ("; every seeded generator x n = 3..5 x two seeds drawn in SEPARATE interpreters under PYTHONHASHSEED 0 / 1 / 4242: bit-identical"
+                 "; call histories: for every seeded generator, in a freshly forked process, every ordered pair of player counts and a descending sweep - a "
                  "seeded call must return what it returned first; the first result is scribbled over before the second identically seeded call")
 
 
 def replay(doc: dict):
+    if doc.get("interpreters"):
+        st = interpreter_unit(("interpreters", [doc["generator"]], [doc["n"]], [doc["gen_seed"]]))
+        msgs = [v["message"] for v in st.violations]
+        return bool(msgs), "; ".join(msgs) if msgs else "identical in all interpreter invocations"
     if doc.get("history"):
         from ..core import fresh_forks
         st = fresh_forks(history_unit, [(doc["generator"], sorted(set(doc.get("order", [3, 4]) + [doc["n"]])), [doc["gen_seed"]])], procs=1)
